@@ -64,6 +64,10 @@ impl<'a> Printer<'a> {
             self.pending_gap = 0;
         }
     }
+    /// spacing (0 none / 1 format_terms / 2 format_items) before the next pushed token
+    pub fn gap(&mut self, g: u8) {
+        self.pending_gap = g;
+    }
     fn sugar(&mut self) -> bool {
         match self.style {
             Style::Plain => false,
